@@ -77,7 +77,17 @@ _RD_SERVES = ['C02', 'C12', 'C13', 'C16', 'C18', 'C10']
 
 ST = 'contracts/strings.c'
 
+CF = 'contracts/c3dframe.c'
+
 UNITS = [
+    U('c3d_frame_guards', CF, 'h_c3d_frame', ['c3d__frame/contract_c3d__frame'], ['C07', 'C10', 'C13', 'C06', 'C18'],
+      replace=['Parameters__group__str/contract_dir_Parameters__group__str', 'Group__parameter__str/contract_dir_Group__parameter__str',
+               'Points__pointIdx/contract_rec_Points__pointIdx', 'Data__frame__Frame_sz/contract_rec_Data__frame__Frame_sz',
+               'c3d__updateParameters/contract_rec_c3d__updateParameters', 'vf_vec_string_ctor_copy/contract_copy_vf_vec_string_ctor_copy'],
+      unwind=8, timeout=900, level='PB', object_bits=12,
+      bound='the scalar guards are symbolic over every state; the label loop is unwound for at most 2 entries of POINT:LABELS',
+      assumes=['by-name accessors resolve the literals POINT/ANALOG/USED/RATE/LABELS to the mandatory entries (ghost directory, '
+               'VALID_C3D); updateParameters does not throw when called without new names (recording contract)']),
     U('Parameters_write', WR, 'h_Parameters_write', ['Parameters__write/contract_Parameters__write'],
       ['C01', 'C03', 'C13', 'C14', 'C10'], replace=['Group__write/contract_abs_Group__write'], unwind=5, loops=True, timeout=900,
       pre_unwind={'vf_stream_write.0': 5, 'Parameters__write.0': 3},
